@@ -712,12 +712,13 @@ def run(ctx):
             recipe = harden(rng, gen_recipe(rng, k, "partial", "partial", ms, mo, md_config(rng, which, k), fs, fo, form))
             run_case(ctx, recipe, ("policy-product",))
     # size thresholds
-    for _ in range(6 if ctx.quick() else 60):
+    nw = max(1, getattr(ctx, "worker", (0, 1))[1])     # the thorough tier is sharded over worker processes
+    for _ in range(6 if ctx.quick() else max(6, 64 // nw)):
         axis = rng.choice(["sample", "observation"])
         run_case(ctx, harden(rng, wide_recipe(rng, axis), then=False), ("wide", "axis=" + axis))
         ctx.count("wide=" + axis)
     # random, including k-tuples
-    n = 1800 if ctx.quick() else 50000
+    n = 1800 if ctx.quick() else max(4000, 64000 // nw)
     for _ in range(n):
         k = rng.choice([1, 1, 2, 2, 3])
         form = "single" if (k == 1 and rng.random() < 0.5) else rng.choice(["list", "tuple"])
